@@ -148,7 +148,7 @@ CLAIMED = {
              "boo_2d psi/|psi|, boo_3d q_l, Q_l, w_l, w-hat_l, tetrahedral order, relaxation functions, gyration descriptors, "
              "participation ratio, Hessian matrix (equal / P H P^T / axis-permuted).",
         note="floats modelled as reals; N=3 (5 for tetrahedral order with 4 concrete); away from half-cell ties and equal "
-             "distances; q_l rotation only about z with the real table (l<=2), other boo_3d cells with opaque Y vectors matched "
+             "distances; q_l rotation only about z with the real table (l=1), other boo_3d cells with opaque Y vectors matched "
              "semantically; Hessian spectra follow from the decided matrix law (eigh stubbed); pair entropy and general SO(3) "
              "not covered.",
         ref="DESIGN.md C07"),
